@@ -310,7 +310,7 @@ def worlds_for(job):
         for vi, vclass in enumerate(['generic', 'neginf', 'x400', 'scrambled-names']):
             if vclass in ('x400', 'scrambled-names') and (sizes_name != 'main' or order is not None):
                 continue
-            total = [1.0, 7.5][(job.get('mask', 0) + vi) % 2]
+            total = [1.0, 7.5, 0.25][(job.get('mask', 0) + vi) % 3]
             desc = {'model': tag, 'k': k, 'cliques': [list(c) for c in cliques], 'sizes': sizes_name, 'order': order,
                     'vclass': vclass, 'total': total, 'seed': job['seed']}
             rngseed = zlib.crc32(repr((job['seed'], tag, sizes_name, vclass)).encode())
